@@ -13,6 +13,7 @@ Hypothesis HUseFrom : forall k, P (SUseFrom k).
 Hypothesis HHelper : forall v g, P (SHelper v g).
 Hypothesis HReturn : P SReturn.
 Hypothesis HIf : forall c t e, Forall P t -> Forall P e -> P (SIf c t e).
+Hypothesis HLoop : forall b, Forall P b -> P (SLoop b).
 Fixpoint stm_ind' (s : stm) : P s :=
   match s with
   | SUse i => HUse i
@@ -25,6 +26,10 @@ Fixpoint stm_ind' (s : stm) : P s :=
             match l with [] => Forall_nil P | x :: r => Forall_cons x (stm_ind' x) (f r) end) t)
         ((fix f (l : list stm) : Forall P l :=
             match l with [] => Forall_nil P | x :: r => Forall_cons x (stm_ind' x) (f r) end) e)
+  | SLoop b =>
+      HLoop b
+        ((fix f (l : list stm) : Forall P l :=
+            match l with [] => Forall_nil P | x :: r => Forall_cons x (stm_ind' x) (f r) end) b)
   end.
 End StmInd.
 
@@ -34,6 +39,7 @@ Lemma exec_if c t e n errs o :
   let '(b, o') := match c with
                   | CLenLt k => (n <? k, o)
                   | CLenGe k => (k <=? n, o)
+                  | CLenEq k => (n =? k, o)
                   | CErrNil v => (lookup_b v errs, o)
                   | CErrNotNil v => (negb (lookup_b v errs), o)
                   | COther => next o
@@ -51,6 +57,7 @@ Lemma safe_if c t e lo hv :
   let '(lt, le) := match c with
                    | CLenLt k => (lo, Nat.max lo k)
                    | CLenGe k => (Nat.max lo k, lo)
+                   | CLenEq k => (Nat.max lo k, if lo =? k then S lo else lo)
                    | CErrNil v => (Nat.max lo (lookup_g v hv), lo)
                    | CErrNotNil v => (lo, Nat.max lo (lookup_g v hv))
                    | COther => (lo, lo)
@@ -75,6 +82,66 @@ Proof.
     destruct (safe_stm x lo0 hv0) as [[[lo' hv']|]|]; [apply IH|reflexivity|reflexivity]. }
   now rewrite !E.
 Qed.
+
+
+(* the loop, with the outer list functions *)
+Fixpoint iter (body : list stm) (n k : nat) (errs : list (nat * bool)) (o : list bool) : out :=
+  match k with
+  | 0 => Fell errs o
+  | S k' =>
+      let '(b, o1) := next o in
+      if b then
+        match exec body n errs o1 with
+        | Panic => Panic
+        | Returned => let '(b2, o2) := next o1 in if b2 then Returned else iter body n k' errs o2
+        | Fell errs' o' => iter body n k' errs' o'
+        end
+      else Fell errs o1
+  end.
+
+Lemma exec_list_eq n l : forall errs o,
+  (fix exec_list (l : list stm) (errs : list (nat * bool)) (o : list bool) : out :=
+     match l with
+     | [] => Fell errs o
+     | x :: r => match exec_stm x n errs o with
+                 | Fell errs' o' => exec_list r errs' o'
+                 | other => other
+                 end
+     end) l errs o = exec l n errs o.
+Proof.
+  induction l as [|x r IH]; intros errs o; cbn [exec]; [reflexivity|].
+  destruct (exec_stm x n errs o); try reflexivity. apply IH.
+Qed.
+
+Lemma exec_loop body n errs o :
+  exec_stm (SLoop body) n errs o = iter body n (length o) errs o.
+Proof.
+  cbn [exec_stm]. generalize (length o) as k. intros k. revert errs o.
+  induction k as [|k IH]; intros errs o; cbn [iter]; [reflexivity|].
+  destruct (next o) as [b o1]. destruct b; [|reflexivity].
+  rewrite exec_list_eq. destruct (exec body n errs o1) as [| |e1 o']; [reflexivity| |apply IH].
+  destruct (next o1) as [b2 o2]. destruct b2; [reflexivity|apply IH].
+Qed.
+
+Lemma safe_list_eq l : forall lo hv,
+  (fix safe_list (l : list stm) (lo : nat) (hv : list (nat * nat)) : ares :=
+     match l with
+     | [] => Some (Some (lo, hv))
+     | x :: r => match safe_stm x lo hv with
+                 | None => None
+                 | Some None => Some None
+                 | Some (Some (lo', hv')) => safe_list r lo' hv'
+                 end
+     end) l lo hv = safe_list l lo hv.
+Proof.
+  induction l as [|x r IH]; intros lo hv; cbn [safe_list]; [reflexivity|].
+  destruct (safe_stm x lo hv) as [[[lo' hv']|]|]; [apply IH|reflexivity|reflexivity].
+Qed.
+
+Lemma safe_loop body lo hv :
+  safe_stm (SLoop body) lo hv =
+  match safe_list body lo [] with Some _ => Some (Some (lo, [])) | None => None end.
+Proof. cbn [safe_stm]. now rewrite safe_list_eq. Qed.
 
 (* the abstract state describes the concrete one *)
 Definition cons (n : nat) (errs : list (nat * bool)) (lo : nat) (hv : list (nat * nat)) : Prop :=
@@ -112,7 +179,7 @@ Qed.
 Theorem sound_stm : forall s n errs o lo hv r,
   safe_stm s lo hv = Some r -> cons n errs lo hv -> ok_out n r (exec_stm s n errs o).
 Proof.
-  induction s as [i|k|v g| |c t e Ht He] using stm_ind'; intros n errs o lo hv r Hs [Hlo Hhv].
+  induction s as [i|k|v g| |c t e Ht He|body Hb] using stm_ind'; intros n errs o lo hv r Hs [Hlo Hhv].
   - simpl in Hs |- *. destruct (Nat.ltb_spec i lo); [|discriminate Hs]. inversion Hs; subst.
     destruct (Nat.ltb_spec i n); [|lia]. cbn. do 2 eexists. split; [reflexivity|split; auto].
   - simpl in Hs |- *. destruct (Nat.leb_spec k lo); [|discriminate Hs]. inversion Hs; subst.
@@ -124,17 +191,19 @@ Proof.
   - simpl in Hs |- *. inversion Hs; subst. exact I.
   - rewrite safe_if in Hs. rewrite exec_if.
     destruct (match c with CLenLt k => (lo, Nat.max lo k) | CLenGe k => (Nat.max lo k, lo)
+              | CLenEq k => (Nat.max lo k, if lo =? k then S lo else lo)
               | CErrNil v => (Nat.max lo (lookup_g v hv), lo) | CErrNotNil v => (lo, Nat.max lo (lookup_g v hv))
               | COther => (lo, lo) end) as [lt le] eqn:Ec.
     destruct (safe_list t lt hv) as [rt|] eqn:Et; [|discriminate].
     destruct (safe_list e le hv) as [re|] eqn:Ee; [|discriminate]. inversion Hs; subst. clear Hs.
-    destruct (match c with CLenLt k => (n <? k, o) | CLenGe k => (k <=? n, o) | CErrNil v => (lookup_b v errs, o)
+    destruct (match c with CLenLt k => (n <? k, o) | CLenGe k => (k <=? n, o) | CLenEq k => (n =? k, o) | CErrNil v => (lookup_b v errs, o)
               | CErrNotNil v => (negb (lookup_b v errs), o) | COther => next o end) as [b o'] eqn:Eb.
     (* the branch taken starts in a state described by its abstract entry state *)
     assert (cons n errs (if b then lt else le) hv) as Hbranch.
     { split; [|exact Hhv]. destruct c; cbv beta iota in Ec, Eb; inversion Ec; inversion Eb; subst; clear Ec Eb.
       - destruct (Nat.ltb_spec n k); lia.
       - destruct (Nat.leb_spec k n); lia.
+      - destruct (Nat.eqb_spec n k); [lia|]. destruct (Nat.eqb_spec lo k); lia.
       - destruct (lookup_b v errs) eqn:L; [specialize (Hhv v L); lia|lia].
       - destruct (lookup_b v errs) eqn:L; cbn; [specialize (Hhv v L); lia|lia].
       - destruct (next o) as [b0 o0]. inversion H2; subst. destruct b; lia. }
@@ -151,17 +220,85 @@ Proof.
       destruct rt as [[l1 h1]|]; cbn [join].
       * do 2 eexists. split; [reflexivity|]. eapply cons_weaken; [exact C|lia].
       * do 2 eexists. split; [reflexivity|exact C].
+  - rewrite safe_loop in Hs. rewrite exec_loop.
+    destruct (safe_list body lo []) as [rb|] eqn:Eb; [|discriminate]. inversion Hs; subst. clear Hs.
+    assert (forall errs0, cons n errs0 lo []) as Cany.
+    { intros errs0. split; [exact Hlo|]. intros v _. cbn. lia. }
+    clear Hhv. generalize (length o) as k. intros k. revert errs o.
+    induction k as [|k IH]; intros errs o; cbn [iter ok_out].
+    + do 2 eexists. split; [reflexivity|apply Cany].
+    + destruct (next o) as [b o1]. destruct b.
+      * pose proof (sound_list_of body Hb n errs o1 lo [] rb Eb (Cany errs)) as X.
+        destruct (exec body n errs o1) as [| |e1 o']; cbn [ok_out] in X.
+        -- contradiction.
+        -- destruct (next o1) as [b2 o2]. destruct b2; [exact I|]. apply IH.
+        -- apply IH.
+      * cbn [ok_out]. do 2 eexists. split; [reflexivity|apply Cany].
 Qed.
 
-(* the theorem the instantiation uses *)
-Theorem safe_sound body :
-  safe body = true -> forall n oracle, exec body n [] oracle <> Panic.
+(* the theorems the instantiation uses *)
+Theorem safe_from_sound lo body :
+  safe_from lo body = true -> forall n oracle, lo <= n -> exec body n [] oracle <> Panic.
 Proof.
-  unfold safe. destruct (safe_list body 0 []) as [r|] eqn:E; [|discriminate]. intros _ n oracle.
+  unfold safe_from. destruct (safe_list body lo []) as [r|] eqn:E; [|discriminate]. intros _ n oracle Hn.
   assert (Forall (fun s => forall n errs o lo hv r,
       safe_stm s lo hv = Some r -> cons n errs lo hv -> ok_out n r (exec_stm s n errs o)) body) as F.
   { apply Forall_forall. intros s _. apply sound_stm. }
-  pose proof (sound_list_of body F n [] oracle 0 [] r E) as X.
-  assert (cons n [] 0 []) as C by (split; [lia|]; intros v H; discriminate).
+  pose proof (sound_list_of body F n [] oracle lo [] r E) as X.
+  assert (cons n [] lo []) as C by (split; [lia|]; intros v H; discriminate).
   specialize (X C). intro P. rewrite P in X. exact X.
+Qed.
+
+Theorem safe_sound body :
+  safe body = true -> forall n oracle, exec body n [] oracle <> Panic.
+Proof. intros H n oracle. apply (safe_from_sound 0 body H). lia. Qed.
+
+Lemma need_upto_sound k : forall lo body m,
+  need_upto k lo body = Some m -> safe_from m body = true.
+Proof.
+  induction k as [|k IH]; intros lo body m; cbn [need_upto]; [discriminate|].
+  destruct (safe_from lo body) eqn:E; [intros H; inversion H; subst; exact E|apply IH].
+Qed.
+
+Theorem need_sound body m :
+  need body = Some m -> forall n oracle, m <= n -> exec body n [] oracle <> Panic.
+Proof. intros H. apply safe_from_sound. exact (need_upto_sound _ _ _ _ H). Qed.
+
+(* the check is not vacuous: it rejects an unguarded use, and the rejected body does panic *)
+Example unguarded_rejected : safe [SUse 0] = false /\ exec [SUse 0] 0 [] [] = Panic.
+Proof. split; reflexivity. Qed.
+Example guarded_accepted :
+  safe [SIf (CLenLt 2) [SReturn] []; SUse 0; SUse 1] = true /\
+  safe [SIf (CLenLt 1) [SReturn] []; SUse 0; SUse 1] = false /\
+  exec [SIf (CLenLt 1) [SReturn] []; SUse 0; SUse 1] 1 [] [] = Panic.
+Proof. repeat split; reflexivity. Qed.
+Example helper_accepted :
+  safe [SHelper 0 2; SIf (CErrNotNil 0) [SReturn] []; SUse 1] = true /\
+  safe [SHelper 0 2; SIf (COther) [SReturn] []; SUse 1] = false.
+Proof. split; reflexivity. Qed.
+Example switch_accepted :
+  safe [SIf (CLenLt 2) [SReturn] []; SIf (CLenEq 2) [SUse 1; SReturn] [SIf (CLenEq 3) [SUse 2; SReturn] [SUse 3; SReturn]]] = true.
+Proof. reflexivity. Qed.
+
+(* the whole table of built-ins at once (instantiated on the regenerated gen/GuardData.v) *)
+Definition all_safe (bs : list (String.string * list stm)) : bool := forallb (fun b => safe (snd b)) bs.
+
+Theorem all_safe_sound bs :
+  all_safe bs = true ->
+  forall key body, In (key, body) bs -> forall n oracle, exec body n [] oracle <> Panic.
+Proof.
+  unfold all_safe. intros H key body Hin. rewrite forallb_forall in H.
+  apply safe_sound. exact (H (key, body) Hin).
+Qed.
+
+(* internal functions (called by Go code with at least [lo] elements) *)
+Definition all_safe_from (bs : list (String.string * nat * list stm)) : bool :=
+  forallb (fun b => safe_from (snd (fst b)) (snd b)) bs.
+
+Theorem all_safe_from_sound bs :
+  all_safe_from bs = true ->
+  forall key lo body, In (key, lo, body) bs -> forall n oracle, lo <= n -> exec body n [] oracle <> Panic.
+Proof.
+  unfold all_safe_from. intros H key lo body Hin. rewrite forallb_forall in H.
+  apply safe_from_sound. exact (H (key, lo, body) Hin).
 Qed.
